@@ -50,6 +50,52 @@ def handleC04 (toks : List String) : String :=
         | .error _ => err "value"
       | _, _, _, _ => err "format"
     | _, _, _, _ => err "format"
+  -- rotatef e n box(12) k uvws(k = 9 | 12 rationals) atoms: float / hexagonal 4-index uvws
+  | "rotatef" :: e :: n :: rest =>
+    match e.toNat?, n.toNat?, parseRats? (rest.take 12), ((rest.drop 12).head?).bind String.toNat? with
+    | some e, some n, some bx, some k =>
+      match M3.ofList? (bx.take 9), V3.ofList? (bx.drop 9), parseRats? ((rest.drop 13).take k),
+            parseAtoms e n (rest.drop (13 + k)) with
+      | some v, some o, some us, some atoms =>
+        let rtol : Rat := 1 / 100000
+        let atol : Rat := 1 / 100000000
+        let u3 : Option (Option (M3 Rat)) :=
+          match us with
+          | [a, b, c, d, e', f, g, h, i] => some (some ⟨⟨a, b, c⟩, ⟨d, e', f⟩, ⟨g, h, i⟩⟩)
+          | [a0, a1, a2, a3, b0, b1, b2, b3, c0, c1, c2, c3] =>
+            match hex4to3? atol a0 a1 a2 a3, hex4to3? atol b0 b1 b2 b3, hex4to3? atol c0 c1 c2 c3 with
+            | some r0, some r1, some r2 => some (some ⟨r0, r1, r2⟩)
+            | _, _, _ => some none
+          | _ => none
+        match u3 with
+        | none => err "format"
+        | some none => err "value"
+        | some (some u) =>
+          match rotateF Rat.floor rtol atol ⟨v, o⟩ u atoms with
+          | .ok r => showResult r
+          | .error _ => err "value"
+      | _, _, _, _ => err "format"
+    | _, _, _, _ => err "format"
+  -- accept k x1..xk: the integer test alone -> the accepted integers or err:value
+  | "accept" :: xs =>
+    match parseRats? xs with
+    | some l =>
+      match l.mapM (acceptIndex? Rat.floor (1 / 100000 : Rat) (1 / 100000000 : Rat)) with
+      | some ns => showInts ns
+      | none => err "value"
+    | none => err "format"
+  -- basis setting n box(12) atoms(e = 0): 1 / 0 / err:value (multiple overlapping atoms)
+  | "basis" :: setting :: n :: rest =>
+    match n.toNat?, parseRats? (rest.take 12) with
+    | some n, some bx =>
+      match M3.ofList? (bx.take 9), V3.ofList? (bx.drop 9), parseAtoms 0 n (rest.drop 12) with
+      | some v, some o, some atoms =>
+        match checkBasis Rat.floor ⟨v, o⟩ setting atoms with
+        | none => err "op"
+        | some none => err "value"
+        | some (some b) => showBool b
+      | _, _, _ => err "format"
+    | _, _ => err "format"
   | _ => err "op"
 
 def main : IO Unit := runDriver handleC04
